@@ -3,6 +3,7 @@ undecorated twin executed for real on the same argument objects; body text is va
 import _call_common as C
 import _gen_common as G
 import C07 as T
+import _call_reentrant as R
 
 RULE = ('generated programs as in C05, each with an undecorated twin (same source without the pedantic decorators) executed on the same objects; '
         'conforming keyword calls (and corrupted ones for the correspondence); compared: outcome class, exactly-one body execution, per-name '
@@ -17,7 +18,7 @@ TRUSTED = ['CPython inspect / functools.wraps semantics']
 def cases(rng, tier):
     n = 1500 if tier == 'quick' else 12000
     return C.build_cases(rng, n, calls_per=3, style='kw', tag='c04a') + C.build_cases(rng, n // 4, calls_per=2, style=None, tag='c04b') \
-        + C.scenario_cases(rng, n // 8, style='kw', tag='c04sc') \
+        + C.scenario_cases(rng, n // 8, style='kw', tag='c04sc') + R.reentrant_cases(rng, n // 6, style='kw', tag='c04re') \
         + G.gen_cases(rng, tier) \
         + tv_tree_cases(rng, tier)         # TypeVars + overlapping (nested) calls: compatible values stay accepted
 
@@ -42,7 +43,7 @@ def run_impl(cases):
     tv = [i for i, c in enumerate(cases) if c.get('m') == 'typevars']
     rest = [i for i, c in enumerate(cases) if c.get('m') != 'typevars']
     out = [None] * len(cases)
-    for i, r in zip(rest, G.run_impl_mixed([cases[i] for i in rest], C.run_impl_calls)):
+    for i, r in zip(rest, G.run_impl_mixed([cases[i] for i in rest], R.run_impl)):
         out[i] = r
     if tv:
         for i, r in zip(tv, T.run_impl([cases[i] for i in tv])):
